@@ -321,7 +321,7 @@ theorem mul_enc_modEq {P p q : Nat} (hk : ValidKey P p q) {m k : Nat} (hm : m < 
   rw [mul_eq _ hkk]
   refine (Nat.mod_modEq _ _).trans ?_
   refine ((enc_modEq hk hm r).pow k).trans ?_
-  rw [mul_pow, ← pow_mul, ← pow_mul, mul_comm (p * q) k, mul_assoc k m]
+  rw [mul_pow, ← pow_mul, ← pow_mul, mul_comm (p * q) k]
   exact (one_add_mul_pow (p * q) m k).mul_right _
 
 /-! ### plaintext admission -/
@@ -364,7 +364,7 @@ theorem message_iff {P p q : Nat} (hk : ValidKey P p q) (bytes : List Nat) (v : 
   unfold message intoMessage
   simp only [fromPQ_n]
   by_cases hany : (bytes.drop (mBytes P)).any (· != 0) = true
-  · simp only [hany, if_true]
+  · rw [if_pos hany]
     constructor
     · intro h; cases h
     · rintro ⟨_, hlt⟩
@@ -385,20 +385,22 @@ theorem message_iff {P p q : Nat} (hk : ValidKey P p q) (bytes : List Nat) (v : 
       have h2 := two_pow_le_mBytes P
       have h3 := hk.n_lt
       omega
-  · simp only [hany]
+  · rw [if_neg hany]
     have hall : ∀ b ∈ bytes.drop (mBytes P), b = 0 := by
       intro b hb
       by_contra hne
       exact hany (List.any_eq_true.mpr ⟨b, hb, by simpa using hne⟩)
     rw [leToNat_eq_zero_of_all_zero _ hall, Nat.mul_zero, Nat.add_zero] at hsplit
     rw [hsplit]
-    constructor
-    · intro h
-      split at h
-      · rename_i hlt; cases h; exact ⟨rfl, hlt⟩
-      · cases h
-    · rintro ⟨rfl, hlt⟩
-      simp [hlt]
+    by_cases hlt : leToNat (bytes.take (mBytes P)) < p * q
+    · rw [if_pos hlt]
+      constructor
+      · intro h; cases h; exact ⟨rfl, hlt⟩
+      · rintro ⟨rfl, _⟩; rfl
+    · rw [if_neg hlt]
+      constructor
+      · intro h; cases h
+      · rintro ⟨_, h⟩; exact absurd h hlt
 
 /-! ### the specification functions are the mathematical formulas -/
 
